@@ -180,8 +180,8 @@ let () =
              (* the hypotheses of C09_resolve_refines_modulo_ns, and the flags of this run *)
              let ast = read_past (unhex_line line) in
              let bs x = if x then "t" else "f" in
-             print_endline (Printf.sprintf "HYP wf=%s no_ns_shadow=%s tree_ok=%s use_sep=%s flags=%s%s%s%s%s" (bs (wf_ast ast)) (bs (no_ns_shadow_pinned ast))
-               (bs (tree_ok ast)) (bs (use_names_sep ast))
+             print_endline (Printf.sprintf "HYP wf=%s no_ns_shadow=%s tree_ok=%s use_sep=%s arrows_simple=%s flags=%s%s%s%s%s" (bs (wf_ast ast)) (bs (no_ns_shadow_pinned ast))
+               (bs (tree_ok ast)) (bs (use_names_sep ast)) (bs (arrows_simple ast))
                (bs gen_rflags.if_truncates) (bs gen_rflags.case_truncates) (bs gen_rflags.else_truncates)
                (bs gen_rflags.access_local_first) (bs gen_rflags.imports_fixpoint))
          | "order" | "order1" ->
